@@ -103,7 +103,10 @@ type StubSpec struct {
 	NilLabels bool            `json:"nilLabels,omitempty"`
 	// ShareLabels: WrapWithLabels hands out the stored label slice itself, not a copy
 	ShareLabels bool `json:"shareLabels,omitempty"`
-	Fail        bool `json:"fail,omitempty"`
+	// AppendFK > 0: Wrap appends that many bytes to the file-key slice it was
+	// given (ordinary Go: building a KDF input, say) and discards the result
+	AppendFK int  `json:"appendFK,omitempty"`
+	Fail     bool `json:"fail,omitempty"`
 }
 
 func (r RecSpec) String() string {
@@ -143,7 +146,16 @@ func (s stubRecipient) Wrap(fileKey []byte) ([]*age.Stanza, error) {
 	if s.s.Fail {
 		return nil, fmt.Errorf("stub recipient: wrap refused")
 	}
+	s.touch(fileKey)
 	return s.stanzas(), nil
+}
+
+var stubSink []byte
+
+func (s stubRecipient) touch(fileKey []byte) {
+	if s.s.AppendFK > 0 {
+		stubSink = append(fileKey, PRG(99, s.s.AppendFK)...)
+	}
 }
 
 type stubRecipientLabels struct{ stubRecipient }
@@ -152,6 +164,7 @@ func (s stubRecipientLabels) WrapWithLabels(fileKey []byte) ([]*age.Stanza, []st
 	if s.s.Fail {
 		return nil, nil, fmt.Errorf("stub recipient: wrap refused")
 	}
+	s.touch(fileKey)
 	var l []string
 	if !s.s.NilLabels {
 		l = append([]string{}, s.s.Labels...)
